@@ -31,6 +31,7 @@ import pipeline
 import regen_c13
 
 LEVEL = "proof"
+INCOHERENT_SIG = "dict-with-equal-keys-merged-on-load:%s"
 PLUGIN = "c13_plugin"
 STAGES = ["gen", "erase", "overwrite"]
 LANGS = pipeline.LANGS
@@ -79,19 +80,32 @@ def judge(run, where, c13, found, model_broken):
     run.cov["opcodes_total"] += s.get("ops", 0)
     run.cov["largest_container_note"] = "batches of 1000 are exercised by the hand-made corpus"
     bad = False
+    inco = s.get("incoherent") or []
+    if inco:
+        run.tally("programs_with_a_dict_holding_equal_keys", ",".join(sorted({x.get("key_class", "?") for x in inco})))
     for d in c13.get("diffs", []):
         bad = True
         leg = d["leg"]
         sig = "%s:%s" % (leg.split(":")[0] if leg.startswith("roundtrip") else leg, d.get("hash", ""))
+        if inco and leg in ("redump", "lookups", "redump-under-identity-hash"):
+            # the live program holds a dict with two keys that are equal now (mutated after insertion);
+            # load re-inserts them one by one, so q has fewer entries
+            sig = INCOHERENT_SIG % ",".join(sorted({x.get("key_class", "?") for x in inco}))
+            d = dict(d, incoherent_dicts=inco[:3])
         if leg.startswith("mutation") and d.get("control_two_copies_of_p_differ"):
             sig = "mutation-not-reproducible-on-copies:%s" % leg.split(":")[1]
         if sig not in found:
             found.add(sig)
             run.violation(dict(where, kind="failing-input", leg=leg, hash_leg=d.get("hash"), detail=d.get("detail"),
+                               incoherent_dicts=d.get("incoherent_dicts"),
                                control=d.get("control_two_copies_of_p_differ"),
                                note="p = the live program, q = utils.load_program(utils.dump_program(p)); the real "
                                     "code distinguishes them"), signature=sig)
     for d in c13.get("model_diffs", []):
+        if inco and d["leg"] in ("load-iso-real-q", "heap-p-iso-heap-q"):
+            # outside the model's precondition (keys of a dict pairwise distinct): Python's SETITEM replaces
+            run.tally("model_legs_outside_precondition_distinct_keys", d["leg"])
+            continue
         model_broken.append((where, d))
     if "model_diffs" in c13:
         run.cov["traces_validated_against_impl"] += 1
